@@ -133,17 +133,20 @@ package types
 //@ func (AccountAccessor).SetVoteFor   trusted
 //@   modifies gh("voteFor", recv)
 //@   ensures voteForKey(recv) == akey(addr)
-//@ func (AccountAccessor).GetCandidateState   trusted
-//@   modifies nothing
+// the profile is a view of two ghost arrays: isCand (the candidate flag) and profile (a version of everything else in it)
+//@ func (AccountAccessor).GetCandidateState   pure trusted
+//@   opt reads=gh:isCand,gh:profile
 //@   ensures key == CandidateKeyIsCandidate ==> (result == IsCandidateNode <==> isCand(recv))
 //@ func (AccountAccessor).SetCandidateState   trusted
-//@   modifies gh("isCand", recv)
+//@   modifies gh("isCand", recv), gh("profile", recv)
 //@   ensures key == CandidateKeyIsCandidate ==> (isCand(recv) <==> val == IsCandidateNode)
 //@   ensures key != CandidateKeyIsCandidate ==> isCand(recv) == old(isCand(recv))
 //@ func (AccountAccessor).GetCandidate   trusted
 //@   modifies nothing
 //@   ensures (has(result, CandidateKeyIsCandidate) && result[CandidateKeyIsCandidate] == IsCandidateNode) <==> isCand(recv)
 //@   ensures has(result, CandidateKeyIsCandidate) ==> result[CandidateKeyIsCandidate] == IsCandidateNode || result[CandidateKeyIsCandidate] == NotCandidateNode
+//@   ensures has(result, CandidateKeyIncomeAddress) ==> result[CandidateKeyIncomeAddress] == recv.GetCandidateState(CandidateKeyIncomeAddress)
+//@   ensures !has(result, CandidateKeyIncomeAddress) ==> recv.GetCandidateState(CandidateKeyIncomeAddress) == ""
 
 // balances (ghost: balanceOf); SetBalance panics on a negative balance (chain/account.(*Account).SetBalance)
 //@ func (AccountAccessor).GetBalance   trusted
